@@ -216,6 +216,15 @@ def builtin_call(name, args, checked):
                     raise Overflow("%s::abs(%d) overflows" % (ty, args[0]))
                 return wrap(abs(args[0]), ty)
             return abs(args[0])
+        if meth in ("checked_sub", "checked_add", "checked_mul"):
+            v = {"checked_sub": args[0] - args[1], "checked_add": args[0] + args[1], "checked_mul": args[0] * args[1]}[meth]
+            if in_range(v, ty):
+                return ("variant", "Some", "core::option::Option", (v,))
+            return ("variant", "None", "core::option::Option", ())
+        if meth in ("saturating_sub", "saturating_add"):
+            v = args[0] - args[1] if meth == "saturating_sub" else args[0] + args[1]
+            lo, hi = (0, (1 << int(ty[1:])) - 1) if ty.startswith("u") and ty[1:].isdigit() else (-(1 << (int(ty[1:]) - 1)), (1 << (int(ty[1:]) - 1)) - 1) if ty[1:].isdigit() else (v, v)
+            return max(lo, min(hi, v))
         if meth == "wrapping_add":
             return wrap(args[0] + args[1], ty)
         if meth == "wrapping_sub":
@@ -237,6 +246,12 @@ def builtin_call(name, args, checked):
     if re.search(r"(core::cmp::Ord|impl core::cmp::Ord for \w+>?)::cmp$", name) or ends("::cmp") and len(args) == 2 and all(isinstance(a, int) for a in args):
         a, b = args
         return ("variant", "Less" if a < b else ("Equal" if a == b else "Greater"), "core::cmp::Ordering", ())
+    if re.search(r"PartialEq(<.*>)?>?::(eq|ne)$", name) and len(args) == 2:
+        def plain(v):
+            # compare enum values by variant and payload, ignoring how the type was spelled
+            return (v[0], v[1], tuple(plain(x) for x in v[3])) if isinstance(v, tuple) and len(v) == 4 and v[0] == "variant" else v
+        same = plain(args[0]) == plain(args[1])
+        return (1 if same else 0) if name.endswith("eq") else (0 if same else 1)
     if ends("Option::<T>::is_none"):
         return 1 if args[0][1] == "None" else 0
     if ends("Option::<T>::is_some"):
